@@ -25,8 +25,11 @@ import (
 	"k8s.io/apimachinery/pkg/types"
 	"sigs.k8s.io/controller-runtime/pkg/client"
 
+	xpmeta "github.com/crossplane/crossplane-runtime/pkg/meta"
+
 	xv1 "github.com/crossplane/crossplane/apis/apiextensions/v1"
 	pkgv1 "github.com/crossplane/crossplane/apis/pkg/v1"
+	"github.com/crossplane/crossplane/internal/controller/pkg/revision"
 )
 
 // ---------------------------------------------------------------- scenario
@@ -274,3 +277,127 @@ func c16Snapshot(st *Store) []c16Obj {
 	return out
 }
 
+
+// ---------------------------------------------------------------- regenerated facts (lean/Xp/Gen/C16.lean)
+
+func c16LeanTri(b *bool) string {
+	if b == nil {
+		return "none"
+	}
+	if *b {
+		return "(some true)"
+	}
+	return "(some false)"
+}
+
+func c16LeanRef(r metav1.OwnerReference) string {
+	return fmt.Sprintf("(%d, %s, %s)", c16UIDNum(r.UID), c16LeanTri(r.Controller), c16LeanTri(r.BlockOwnerDeletion))
+}
+
+func c16LeanRefs(rs []metav1.OwnerReference) string {
+	xs := make([]string, len(rs))
+	for i, r := range rs {
+		xs[i] = c16LeanRef(r)
+	}
+	return "[" + strings.Join(xs, ", ") + "]"
+}
+
+func init() {
+	RegisterDump("C16", func() string {
+		// every owner reference over uids {1,2} x controller in {nil,false,true}
+		var univ []metav1.OwnerReference
+		for _, u := range []int{1, 2} {
+			for _, c := range []string{"nil", "false", "true"} {
+				univ = append(univ, metav1.OwnerReference{UID: c16UID(u), Controller: c16Tri(c)})
+			}
+		}
+		// every list of at most two of them
+		lists := [][]metav1.OwnerReference{{}}
+		for _, a := range univ {
+			lists = append(lists, []metav1.OwnerReference{a})
+			for _, b := range univ {
+				lists = append(lists, []metav1.OwnerReference{a, b})
+			}
+		}
+		var sb strings.Builder
+		sb.WriteString("/-- owner reference as (uid, controller, blockOwnerDeletion) -/\nabbrev C16Ref := Nat × Option Bool × Option Bool\n\n")
+		// the flags meta.AsController / meta.AsOwner put on a reference
+		parent := c16ParentObj(c16Parent{UID: 7})
+		tr := xpmeta.TypedReferenceTo(parent, parent.GetObjectKind().GroupVersionKind())
+		sb.WriteString("/-- `meta.AsController(TypedReferenceTo(parent))` for a parent with uid 7 -/\ndef c16AsController : C16Ref := " + c16LeanRef(xpmeta.AsController(tr)) + "\n")
+		sb.WriteString("/-- `meta.AsOwner(TypedReferenceTo(parent))` for a parent with uid 7 -/\ndef c16AsOwner : C16Ref := " + c16LeanRef(xpmeta.AsOwner(tr)) + "\n\n")
+		// meta.AddOwnerReference
+		sb.WriteString("/-- (references, new reference, references after `meta.AddOwnerReference`), run on the real function -/\ndef c16AddOwnerTable : List (List C16Ref × C16Ref × List C16Ref) := [\n")
+		first := true
+		for _, l := range lists {
+			for _, r := range univ {
+				o := &xv1.Composition{}
+				o.SetOwnerReferences(append([]metav1.OwnerReference{}, l...))
+				xpmeta.AddOwnerReference(o, r)
+				if !first {
+					sb.WriteString(",\n")
+				}
+				first = false
+				sb.WriteString("  (" + c16LeanRefs(l) + ", " + c16LeanRef(r) + ", " + c16LeanRefs(o.GetOwnerReferences()) + ")")
+			}
+		}
+		sb.WriteString("]\n\n")
+		// meta.AddControllerReference (none = error) and metav1.GetControllerOf
+		sb.WriteString("/-- (references, new controller reference, result of `meta.AddControllerReference`; none = error) -/\ndef c16AddControllerTable : List (List C16Ref × C16Ref × Option (List C16Ref)) := [\n")
+		first = true
+		for _, l := range lists {
+			for _, u := range []int{1, 2} {
+				t := true
+				r := metav1.OwnerReference{UID: c16UID(u), Controller: &t, BlockOwnerDeletion: &t}
+				o := &xv1.Composition{}
+				o.SetOwnerReferences(append([]metav1.OwnerReference{}, l...))
+				res := "none"
+				if err := xpmeta.AddControllerReference(o, r); err == nil {
+					res = "(some " + c16LeanRefs(o.GetOwnerReferences()) + ")"
+				}
+				if !first {
+					sb.WriteString(",\n")
+				}
+				first = false
+				sb.WriteString("  (" + c16LeanRefs(l) + ", " + c16LeanRef(r) + ", " + res + ")")
+			}
+		}
+		sb.WriteString("]\n\n")
+		// GetPackageOwnerReference: which owner reference of a revision is its package
+		sb.WriteString("/-- (label, owner names, index GetPackageOwnerReference picks; none = not found) -/\ndef c16PkgRefTable : List (String × List String × Option Nat) := [\n")
+		first = true
+		names := []string{"", "p", "q"}
+		var nameLists [][]string
+		nameLists = append(nameLists, []string{})
+		for _, a := range names {
+			nameLists = append(nameLists, []string{a})
+			for _, b := range names {
+				nameLists = append(nameLists, []string{a, b})
+			}
+		}
+		for _, label := range names {
+			for _, nl := range nameLists {
+				pr := &pkgv1.ConfigurationRevision{}
+				if label != "" {
+					pr.SetLabels(map[string]string{pkgv1.LabelParentPackage: label})
+				}
+				var ors []metav1.OwnerReference
+				for i, n := range nl {
+					ors = append(ors, metav1.OwnerReference{Name: n, UID: c16UID(i)})
+				}
+				pr.SetOwnerReferences(ors)
+				res := "none"
+				if got, ok := revision.GetPackageOwnerReference(pr); ok {
+					res = fmt.Sprintf("(some %d)", c16UIDNum(got.UID))
+				}
+				if !first {
+					sb.WriteString(",\n")
+				}
+				first = false
+				sb.WriteString("  (" + leanStr(label) + ", " + leanStrList(nl) + ", " + res + ")")
+			}
+		}
+		sb.WriteString("]\n")
+		return sb.String()
+	})
+}
